@@ -284,6 +284,28 @@ func (s *subject) runHistory(seq []int) (v *hx.Violation, states map[uint64]bool
 		var exp map[string]*ref.T
 		wantErr, unjudged := false, false
 		label := ""
+		if op == opOtherF64 || op == opOtherI32 {
+			// the request with every float32 caller tensor handed over in another element type: mostly refused (by the
+			// gate or inside the operator), sometimes computed; its outcome is not judged, what it leaves behind is
+			to := ref.F64
+			if op == opOtherI32 {
+				to = ref.I32
+			}
+			feed = gonnx.Tensors{}
+			any := false
+			for k, t := range s.FeedA {
+				if t.DT == ref.F32 {
+					feed[k] = hx.ToG(ref.Fill(to, t.Shape, func(i int) float64 { return math.Round(t.F(i) * 4) }))
+					any = true
+				} else {
+					feed[k] = TA[k]
+				}
+			}
+			if !any {
+				continue
+			}
+			unjudged = true
+		}
 		if op >= oddBase {
 			ks := sortedKeys(TA)
 			ti, ax := (op-oddBase)/8, (op-oddBase)%8
@@ -589,7 +611,19 @@ func (s *subject) runHistory(seq []int) (v *hx.Violation, states map[uint64]bool
 // (code-oddBase)%8); the outcome of that call is not judged.
 const oddBase = 100
 
+// operations 90 / 91: Run(A with its float32 tensors converted to float64 / int32); outcome not judged.
+const (
+	opOtherF64 = 90
+	opOtherI32 = 91
+)
+
 func histOpName(op int) string {
+	if op == opOtherF64 {
+		return "Run(A with its float32 tensors as float64; outcome not judged)"
+	}
+	if op == opOtherI32 {
+		return "Run(A with its float32 tensors as int32; outcome not judged)"
+	}
 	if op >= oddBase {
 		return fmt.Sprintf("Run(A with caller tensor #%d one longer on axis %d; outcome not judged)", (op-oddBase)/8, (op-oddBase)%8)
 	}
@@ -863,6 +897,12 @@ func checkC02(c *hx.Checker) {
 				seq[i] = int(x)
 			}
 			jobs = append(jobs, job{s, seq})
+		}
+		// the request in another element type, embedded in short histories
+		for _, o := range []int{opOtherF64, opOtherI32} {
+			for _, h := range [][]int{{o, opRunA}, {opRunA, o, opRunA}, {opRunB, o, opRunB}, {o, o, opRunB}, {o, opRunFreshA, opRunA}} {
+				jobs = append(jobs, job{s, h})
+			}
 		}
 		// every caller tensor x every axis made one element longer (with symbolic dims the call reaches the operator
 		// and fails - or succeeds - somewhere inside it), embedded in short histories
